@@ -15,10 +15,10 @@ HOOKS = {
 
 ENGINES = [
     {"name": "conc", "path": "lib/domain.py (conc_engine, c13) + harness/concprobe + tla/{LockDiscipline,RowsLock}.tla",
-     "serves_properties": ["C13", "C01", "C05", "C08", "C11", "C16"],
+     "serves_properties": ["C13", "C01", "C05", "C06", "C07", "C08", "C11", "C16"],
      "kind_free_text": "concurrent seeded clients against one runner (Shutdown overlapping the clients in every second round), -race build, "
                        "lock-mode probe hooks that also give the order of the critical sections; rows validated by TLC; besides C13 it attaches "
-                       "interleaving-independent facts to C01 C05 C08 C11 C16"},
+                       "interleaving-independent facts to C01 C05 C06 C07 C08 C11 C16"},
     {"name": "realproc", "path": "lib/domain.py (c18, c19, c20) + harness/realprobe + tla/{Env,Logs,Procs,Rows*}.tla", "serves_properties": ["C18", "C19", "C20"],
      "kind_free_text": "real PipelineRunner + real TaskRunner + /bin/sh children; cases from TLC-enumerated specs; rows validated by TLC"},
     {"name": "exec", "path": "lib/domain.py (exec_engine) + harness/realprobe (TestExec) + tla/{TaskExec,RowsExec}.tla", "serves_properties": ["C04", "C08"],
